@@ -192,6 +192,11 @@ class Engine(EngineBase):
         ws = os.path.join(pp, "workspace")
         kind, j = d[0], d[1]
         fn = os.path.join(ws, ids[j], SP_FILE)
+        # in a multi-damage set an earlier damage may have removed / renamed this job: skip
+        if not os.path.isfile(fn):
+            return
+        if kind == "swap" and not os.path.isfile(os.path.join(ws, ids[d[2]], SP_FILE)):
+            return
         if kind == "trunc":
             with O.io_open(fn, "rb") as f:
                 data = f.read()
@@ -235,7 +240,7 @@ class Engine(EngineBase):
                     O.rename(os.path.join(ws, ids[j]), os.path.join(ws, new))
                 else:
                     import shutil
-                    shutil.rmtree(os.path.join(ws, ids[k]))
+                    shutil.rmtree(os.path.join(ws, ids[k]), ignore_errors=True)
                     O.rename(os.path.join(ws, ids[j]), os.path.join(ws, ids[k]))
 
     @quiet
